@@ -19,6 +19,13 @@ swallowed before any of this), teardown (`shuttingDown` is false), parked waiter
 Two source variants are parameters of the model (the driver sets them from `Gen/CloseSites.lean`, the theorems need both):
 `eraseAlways` - the close handler erases the read mode unconditionally; `tombGuard` - `setReadMode` on a session whose
 receive buffer is a closed tombstone is vacuous: it returns true, registers no mode and flushes nothing (repair FC02a).
+
+The close handler is TWO ops, because it is not atomic for the other threads: `closeMark sid` is its syncMutex block (mark the
+buffer closed / leave the tombstone, erase the read mode, sweep) and `closeCbs sid` is the part that runs user code (global
+close callback, observers).  Complete application calls (`setMode`, `recv`) of OTHER threads may stand between the two ops of
+one handler run in a history; engine ops may not (the I/O thread is inside the handler).  In which ORDER one handler run
+performs the two is the third source variant, `markFirst` (Gen fact `closeMarksBeforeCallbacks`; repair FC03c made it true):
+`handlerOps` is one handler run, `orderB` / `HandlerOrder` is the shape of a history all of whose handler runs have that order.
 -/
 namespace Iora.Deliver
 
@@ -35,6 +42,7 @@ structure Buf where
   data : Bytes := []
   closed : Bool := false
   overflow : Bool := false
+  overflowReported : Bool := false   -- a receiveSync has answered BufferOverflow for this buffer (fix 3fba082 / FC03d)
   deriving Repr
 
 structure Cfg where
@@ -44,6 +52,7 @@ structure Cfg where
   hasDataCb : Bool := true         -- a global data callback is installed
   eraseAlways : Bool := true       -- source variant: `readModes.erase(sid)` of the close handler is unconditional
   tombGuard : Bool := true         -- source variant: setReadMode is vacuous (returns true, no effect) for a closed tombstone (FC02a)
+  markFirst : Bool := true         -- source variant: the close handler marks the session closed BEFORE it runs the close callbacks (FC03c)
   deriving Repr
 
 structure T where
@@ -51,7 +60,8 @@ structure T where
   modes : Sid → Option Mode := fun _ => none      -- `readModes`
   bufs : Sid → Option Buf := fun _ => none        -- `receiveBuffers`
   keys : List Sid := []                            -- the keys of `receiveBuffers` (its `size()` and the GC sweep)
-  closedH : Sid → Bool := fun _ => false          -- ghost: the close handler has run for this id
+  closedH : Sid → Bool := fun _ => false          -- ghost: the close callbacks (global, observers) have been started for this id
+  marked : Sid → Bool := fun _ => false           -- ghost: the handler's syncMutex block (closed flag / tombstone / erase) has run for this id
 
 inductive RecvRes
   | bytes (b : Bytes) | timeout | peerClosed | overflow
@@ -61,7 +71,10 @@ inductive Op
   | engAccept (sid : Sid)
   | engConnect (sid : Sid)
   | engData (sid : Sid) (b : Bytes)
-  | engClose (sid : Sid)
+  /-- the close handler's syncMutex block: closed flag or tombstone, `readModes.erase`, sweep -/
+  | closeMark (sid : Sid)
+  /-- the close handler's user-code part: global close callback, then the observers -/
+  | closeCbs (sid : Sid)
   | setMode (sid : Sid) (m : Mode)
   | recv (sid : Sid) (len : Nat)
   deriving DecidableEq, Repr
@@ -118,7 +131,7 @@ def onData (sid : Sid) (bytes : Bytes) (t : T) : T × List Out :=
   | .async => (t, dataCb t sid bytes)
 
 /-- a tombstone the sweep may reclaim: closed and drained (no waiter, no flush in a sequential history) -/
-def reclaimable (b : Buf) : Bool := b.closed && b.data.isEmpty
+def reclaimable (b : Buf) : Bool := b.closed && b.data.isEmpty && (!b.overflow || b.overflowReported)
 
 def dead (sid : Sid) (t : T) (k : Sid) : Bool :=
   k != sid && (match t.bufs k with | some b => reclaimable b | none => false)
@@ -141,10 +154,15 @@ def eraseMode (sid : Sid) (t : T) : T :=
 /-- step 6, the sweep once the map is over the threshold -/
 def sweep (sid : Sid) (t : T) : T := if t.keys.length > t.cfg.gcThreshold then gc sid t else t
 
-/-- mirrors step 6 of `cbs.onClose`: close the buffer or leave a tombstone, erase the read mode, sweep -/
-def onClose (sid : Sid) (t : T) : T × List Out :=
+/-- mirrors the syncMutex block of `cbs.onClose` ("step 6" before FC03c, step 2 after it): close the buffer or leave a tombstone,
+erase the read mode, sweep.  Nothing the application can observe happens here. -/
+def closeMark (sid : Sid) (t : T) : T × List Out :=
   let t3 := sweep sid (eraseMode sid (markClosed sid t))
-  ({ t3 with closedH := upd t3.closedH sid true }, [.closeH sid])
+  ({ t3 with marked := upd t3.marked sid true }, [])
+
+/-- the callback part of `cbs.onClose` (global close callback, observers: `Fanout.closeFan`): from here on the application knows -/
+def closeCbs (sid : Sid) (t : T) : T × List Out :=
+  ({ t with closedH := upd t.closedH sid true }, [.closeH sid])
 
 /-- mirrors `Transport::receiveSync(sid, buf, len, 0ms)`: find-or-create, one evaluation of the wait predicate, drain first,
 then overflow, then PeerClosed (which reclaims the entry and the mode) -/
@@ -155,7 +173,7 @@ def recv (sid : Sid) (len : Nat) (t : T) : T × List Out :=
     if !b.data.isEmpty then
       let n := min len b.data.length
       (setBuf sid { b with data := b.data.drop n } t, [.recvRet sid (.bytes (b.data.take n))])
-    else if b.overflow then (t, [.recvRet sid .overflow])
+    else if b.overflow then (setBuf sid { b with overflowReported := true } t, [.recvRet sid .overflow])
     else if b.closed then ({ eraseBuf sid t with modes := upd t.modes sid none }, [.recvRet sid .peerClosed])
     else (t, [.recvRet sid .timeout])
 
@@ -179,7 +197,8 @@ def step (t : T) : Op → T × List Out
   | .engAccept sid => (t, [.acceptCb sid])
   | .engConnect sid => (t, [.connectCb sid])
   | .engData sid b => onData sid b t
-  | .engClose sid => onClose sid t
+  | .closeMark sid => closeMark sid t
+  | .closeCbs sid => closeCbs sid t
   | .setMode sid m => setMode sid m t
   | .recv sid len => recv sid len t
 
@@ -193,5 +212,24 @@ def runState : T → List Op → T
   | t, op :: r => runState (step t op).1 r
 
 def init (cfg : Cfg) : T := { cfg := cfg }
+
+/-- ONE run of the close handler on the I/O thread, in the order the source variant says; `window` = the complete application
+calls other threads make while the handler is between its two halves (for the callbacks-first order: while the close callbacks run
+and until the syncMutex block has been executed) -/
+def handlerOps (markFirst : Bool) (sid : Sid) (window : List Op) : List Op :=
+  if markFirst then .closeMark sid :: window ++ [.closeCbs sid] else .closeCbs sid :: window ++ [.closeMark sid]
+
+/-- every handler run of the history has the order `markFirst` says: with it every `closeCbs sid` is preceded by a `closeMark sid`,
+without it every `closeMark sid` is preceded by a `closeCbs sid` (`seen` = ids whose first half has run) -/
+def orderB (markFirst : Bool) : List Sid → List Op → Bool
+  | _, [] => true
+  | seen, .closeMark s :: r => (markFirst || seen.contains s) && orderB markFirst (if markFirst then s :: seen else seen) r
+  | seen, .closeCbs s :: r => (!markFirst || seen.contains s) && orderB markFirst (if markFirst then seen else s :: seen) r
+  | seen, _ :: r => orderB markFirst seen r
+
+def HandlerOrder (markFirst : Bool) (ops : List Op) : Prop := orderB markFirst [] ops = true
+
+instance (markFirst : Bool) (ops : List Op) : Decidable (HandlerOrder markFirst ops) :=
+  inferInstanceAs (Decidable (orderB markFirst [] ops = true))
 
 end Iora.Deliver
